@@ -300,7 +300,6 @@ def judge_multimappers(lists, info):
 def strategies():
     from hypothesis import strategies as st
     import sys
-    sys.path.insert(0, "/repo")
     from src.isoform_assignment import MatchEventSubtype, MatchClassification, ReadAssignmentType, SupplementaryMatchConstants as C
     ascii_id = st.text(alphabet="abcXYZ0189_-:/.|", min_size=0, max_size=12)
     names = st.one_of(ascii_id, st.sampled_from(["", "ENSG00000123.4", "géne", "漢字", "x" * 300, "read/1;a=b"]))
@@ -344,7 +343,6 @@ def strategies():
 
 def run(args):
     import sys
-    sys.path.insert(0, "/repo")
     from hypothesis import settings, seed, HealthCheck, Phase, strategies as st
     from hypothesis.stateful import RuleBasedStateMachine, rule, precondition, run_state_machine_as_test, invariant
     from .c08 import strategy as c08_strategy
@@ -418,7 +416,6 @@ def run(args):
 
 def replay_case(args):
     import sys
-    sys.path.insert(0, "/repo")
     if args.get("what") == "multimappers":
         return {"problems": judge_multimappers(args["payload"]["lists"], args["payload"]["info"])}
     return {"problems": judge_stream([(k, d) for k, d in args["payload"]])}
